@@ -117,6 +117,11 @@ func CreateStorageTx(ctx context.Context, root *treechangeproto.RawTreeChangeWit
 	if err != nil {
 		return nil, err
 	}
+	// the tombstone check of the callers (checkTreeDeleted) runs before a possibly long remote fetch;
+	// re-check inside the write transaction so that an id deleted in between is not resurrected
+	if entry, entryErr := headStorage.GetEntry(ctx, root.Id); entryErr == nil && entry.DeletedStatus != headstorage.DeletedStatusNotDeleted {
+		return nil, treestorage.ErrTreeDeleted
+	}
 	firstOrder := lexId.Next("")
 	stChange := StorageChange{
 		RawChange:       root.RawChange,
